@@ -173,6 +173,27 @@ def window_pair(rng, la, lb, tmin=18.0, tmax=40.0, emin=0.05, emax=60.0):
     return shells, ["geom:screening-window", "window:t=%d" % int(t)]
 
 
+def displaced_pair(rng, la, lb, emax=40.0):
+    """Two shells on nearly coincident centres (a finite-difference displaced copy / a floating function next to an
+    atom), the pair sitting 0, 10 or 30 bohr from the coordinate origin: the displacement (1e-6 .. 1e-4 bohr) is below
+    1e-5 x |coordinate|, yet the integrals between the two shells depend on it at the 1e-6 .. 1e-4 level."""
+    shells = []
+    for l in (la, lb):
+        K = int(rng.integers(1, 3))
+        exps = [float(np.exp(rng.uniform(np.log(0.3), np.log(min(emax, cap(l)))))) for _ in range(K)]
+        shells.append({"l": int(l), "c": None, "e": exps, "k": rand_coeffs(rng, l, exps, int(rng.integers(1, 3))), "t": str(rng.choice(["c", "p"]))})
+    R = float(rng.choice([0.0, 10.0, 30.0]))
+    u = rng.normal(size=3)
+    u /= np.linalg.norm(u)
+    c0 = u * R + rng.normal(size=3) * 0.3
+    delta = float(rng.choice([1e-6, 1e-5, 3e-5, 1e-4]))
+    v = rng.normal(size=3)
+    v /= np.linalg.norm(v)
+    shells[0]["c"] = [float(x) for x in c0]
+    shells[1]["c"] = [float(x) for x in c0 + v * delta]
+    return shells, ["geom:displaced-copy", "delta:%g" % delta, "origin-distance:%g" % R]
+
+
 # --------------------------------------------------------------------------------- builders
 def build(shells, cls=None):
     """gbasis shell objects from descriptors (fresh arrays every time)."""
